@@ -1475,10 +1475,11 @@ def oracle_c13(op, kv, res, trace, flags):
     n, m = len(h), len(x)
     st = steps_of(trace)
     if op == "mmiter":
-        # a complete traversal of k calls: every call but the last reports a match and resumes behind it, so the
-        # calls together cover the haystack once plus one needle length per call
+        # Props/C13.v, C13_iter_any / C13_riter_any with no None before the last call (the cases ask for matches + 1 calls):
+        #   W * (|h| + 1) + C * k + 5 * |x| + 8,   (W, C) = (4907, 4909) forward, (70, 72) reverse
         calls = int(kv["k"])
-        bound = c13_bound(kv, n + calls * (m + 1), m) + calls * (6 * m + 11)
+        W, C = ((70, 72) if kv.get("dir") == "r" else (4907, 4909))
+        bound = W * (n + 1) + C * calls + 5 * m + 8
     else:
         bound = c13_bound(kv, n, m)
     if st > bound:
